@@ -65,7 +65,7 @@ pub fn run_c19(_p: &str, tier: Tier, run_seed: u64, _ov: &Value) -> RunOut {
     let with_string = rng.chance(1, 3);
     let ipc_mode = *rng.pick(&[0i64, 1, 2, 2]);
     let rows0 = 20 + rng.usize(300);
-    let lay = ParquetLayout { file_cuts: vec![], row_group_rows: *rng.pick(&[16usize, 64, 4096]), dictionary: with_string, stats: 2, stem: "t".into(), same_name_dirs: false };
+    let lay = ParquetLayout { file_cuts: vec![], row_group_rows: *rng.pick(&[16usize, 64, 4096]), dictionary: with_string, stats: 2, stem: "t".into(), same_name_dirs: false, empty_row_groups: vec![] };
     let mut trace: Vec<String> = vec![format!("ipc_mode={ipc_mode} strings={with_string} rg={}", lay.row_group_rows)];
     query_engine::verif::knobs::clear();
     query_engine::verif::knobs::set("ipc.mode", ipc_mode);
